@@ -187,6 +187,17 @@ def repetition_bounded(ctx):
         if err is not None:
             bad.append(f"raised {type(err).__name__}: {err}")
         return bool(bad), "; ".join(bad) or "as required"
+    def replay_reftime(vals):
+        out, err = real_run(vals, [("rep", "ev")], names)
+        reads = [vals[n] for n in names] or [1.7e9]
+        bad = []
+        for k, (ms, r, d) in enumerate(out[0]):
+            now = reads[min(k, len(reads) - 1)]
+            its = (float(now) - ITS_EPOCH + ELAPSED_SECONDS) * 1000
+            ref = d["denm"]["management"]["referenceTime"]
+            if not (its - 1 < ref <= its):
+                bad.append(f"DENM {k}: referenceTime {ref}, ITS time of the clock reading {its:.3f} ms")
+        return bool(bad), "; ".join(bad) or "reference times are the ITS times of the clock readings"
     ctx.prove("no-exception", I, exc, vars=vars_, replay=replay)
     # count: the k-th DENM is handed over iff k*i < T  (=> ceil(T/i) messages), each exactly k*i ms after the first
     bad_cnt = [c != (k * i < T) for k, (c, r, ms) in enumerate(h.requests)]
@@ -238,7 +249,7 @@ def repetition_bounded(ctx):
         its = (now - ITS_EPOCH + ELAPSED_SECONDS) * 1000
         rt_bad.append(z3.And(c, z3.Not(z3.And(val_cmp(I, ast.LtE, ref, its), val_cmp(I, ast.Gt, ref, its - 1)))))
     ctx.prove("reference-time-is-its-time", I, z3.Or(*rt_bad) if rt_bad else TRUE, vars=vars_,
-              replay=lambda v: (True, "referenceTime is not floor of the ITS time of the clock reading"))
+              replay=replay_reftime)
     allbad = bad_cnt + bad_t + bad_req + bad_msg + same + mono
     ctx.witness("reach-3-repetitions", I, z3.And(h.requests[2][0], z3.Not(exc)) if len(h.requests) > 2 else FALSE, vars=vars_,
                 validate=lambda v: not replay(v)[0], good=z3.Not(z3.Or(*allbad)))
@@ -282,7 +293,32 @@ def repetition_inductive(ctx):
     sends = [c for c, r, ms in h.requests]
     once = z3.And(z3.PbEq([(c, 1) for c in sends], 1)) if sends else FALSE
     exc = cond_or(c for c, _ in I.raises)
-    nope = lambda v: (True, "loop body deviates from: one DENM, sleep(interval), accumulated time += interval")
+    def nope(vals):
+        """the one-iteration statement replayed as a whole real event with the same interval and a duration of (sent_so_far + 2) intervals, capped:
+        one DENM per iteration, one sleep of exactly one interval after each, the loop ends when the accumulated time reaches the duration"""
+        from unittest import mock
+        from flexstack.facilities.decentralized_environmental_notification_service.denm_coder import DENMCoder
+        coder = DENMCoder()
+        i = vals["ev_interval"]
+        T = vals["ev_duration"]
+        log = []
+        btp = mock.Mock()
+        btp.btp_data_request.side_effect = lambda r: log.append("denm")
+        m = DENMTransmissionManagement(btp, coder, VehicleData(station_id=vals["station_id"], station_type=5))
+        req = DENRequest(denm_interval=i, time_period=T, detection_time=1, event_position={
+            "latitude": vals["ev_lat"], "longitude": vals["ev_lon"],
+            "positionConfidenceEllipse": {"semiMajorConfidence": 4095, "semiMinorConfidence": 4095, "semiMajorOrientation": 3601},
+            "altitude": {"altitudeValue": 800001, "altitudeConfidence": "unavailable"}}, relevance_distance="lessThan200m",
+            relevance_traffic_direction="upstreamTraffic", rhs_cause_code="emergencyVehicleApproaching95", rhs_subcause_code=1, rhs_event_speed=30, rhs_vehicle_type=0)
+        with mock.patch.object(DTM.time, "sleep", lambda d: log.append(("sleep", round(d * 1000, 6)))):
+            m.trigger_denm_messages(req)
+        want = []
+        t = 0
+        while t < T:
+            want += ["denm", ("sleep", float(i))]
+            t += i
+        norm = [x if x == "denm" else ("sleep", float(x[1])) for x in log]
+        return norm != want, f"interval {i} ms, duration {T} ms: the event did {norm[:8]}{'...' if len(norm) > 8 else ''} (expected {want[:8]}{'...' if len(want) > 8 else ''})"
     ctx.witness("reach-iteration", I, z3.And(guard, out, n > 3), vars=vars_)
     ctx.prove("guard-is-time-below-duration", I, guard != (tt < T), vars=vars_, replay=nope,
               desc="the loop continues exactly while the accumulated time is below the requested duration")
